@@ -49,6 +49,10 @@ type Module struct {
 	Targeted     bool
 	TargetPaths  []string
 	ExcludePaths []string
+	// ProtoFileTarget targets one file (a proto-file reference), optionally with the other
+	// files of its package in the same module
+	ProtoFileTarget     string
+	IncludePackageFiles bool
 }
 
 // Workspace is a generated workspace.
@@ -265,7 +269,10 @@ func (ws *Workspace) drawTargeting(t *tape.Tape) {
 		if !m.Targeted || len(m.Files) == 0 {
 			continue
 		}
-		switch t.Draw("ws.pathsel", 4) {
+		switch t.Draw("ws.pathsel", 5) {
+		case 4:
+			m.ProtoFileTarget = m.Files[t.Draw("ws.pfile", len(m.Files))].Path
+			m.IncludePackageFiles = t.Draw("ws.pkgfiles", 2) == 1
 		case 1:
 			// --path: one or two directories or files
 			m.TargetPaths = []string{ws.pickPath(t, m)}
@@ -288,7 +295,7 @@ func (ws *Workspace) drawTargeting(t *tape.Tape) {
 	// at least one target file must remain
 	if len(ws.Targets()) == 0 {
 		for _, m := range ws.Modules {
-			m.TargetPaths, m.ExcludePaths = nil, nil
+			m.TargetPaths, m.ExcludePaths, m.ProtoFileTarget = nil, nil, ""
 			m.Targeted = true
 		}
 	}
@@ -310,6 +317,13 @@ func (ws *Workspace) IsTarget(f *File) bool {
 	m := ws.Modules[f.Module]
 	if !m.Targeted {
 		return false
+	}
+	if m.ProtoFileTarget != "" {
+		if f.Path == m.ProtoFileTarget {
+			return true
+		}
+		tf := ws.Files[m.ProtoFileTarget]
+		return m.IncludePackageFiles && tf != nil && tf.Package != "" && tf.Package == f.Package
 	}
 	in := len(m.TargetPaths) == 0
 	for _, p := range m.TargetPaths {
